@@ -236,7 +236,16 @@ func Gen(pr Profile) func(t *rapid.T) Scenario {
 					continue // an anonymous import of the File's own path is the caller's explicit wish, not a reference
 				}
 				if rapid.Bool().Draw(t, "anonref") {
-					ops = append(ops, recipe.FileOp{Op: "Anon", Args: []recipe.Text{recipe.Text(target)}})
+					args := []recipe.Text{recipe.Text(target)}
+					if rapid.IntRange(0, 2).Draw(t, "anonmulti") == 0 {
+						// several paths in one Anon call
+						extra := "anon.example/" + rapid.SampledFrom(lastElems).Draw(t, "anonextra")
+						args = append(args, recipe.Text(extra))
+						if rapid.Bool().Draw(t, "anonextrafirst") {
+							args[0], args[1] = args[1], args[0]
+						}
+					}
+					ops = append(ops, recipe.FileOp{Op: "Anon", Args: args})
 				} else {
 					a := "anon.example/" + rapid.SampledFrom(lastElems).Draw(t, "anonlast")
 					anonOnly = append(anonOnly, a)
@@ -321,14 +330,25 @@ func Gen(pr Profile) func(t *rapid.T) Scenario {
 			})
 		}
 		sc.File.Ops = ops
+		if rapid.IntRange(0, 24).Draw(t, "nobody") == 0 {
+			// a File without code (tools.go, driver registration): only its settings speak
+			sc.File.Body = nil
+			return sc
+		}
 		if rapid.IntRange(0, 3).Draw(t, "staged") == 0 {
 			// settings that arrive after a first render (see Scenario.Split); an anonymous import of a path the
 			// body references is not made late: it un-registers the path, which is then named afresh
 			k := rapid.IntRange(0, len(ops)).Draw(t, "split")
 			kept := append([]recipe.FileOp{}, ops[:k]...)
 			for _, op := range ops[k:] {
-				if op.Op == "Anon" && seen[string(op.Args[0])] {
-					continue
+				if op.Op == "Anon" {
+					ref := false
+					for _, a := range op.Args {
+						ref = ref || seen[string(a)]
+					}
+					if ref {
+						continue
+					}
 				}
 				kept = append(kept, op)
 			}
@@ -336,6 +356,12 @@ func Gen(pr Profile) func(t *rapid.T) Scenario {
 			sc.Split = k + 1
 			if rapid.Bool().Draw(t, "preview") {
 				sc.Preview = rapid.IntRange(1, len(sc.File.Body)).Draw(t, "npreview")
+			}
+			if rapid.IntRange(0, 2).Draw(t, "latebody") == 0 {
+				// every setting is made up front; part of the body reaches the File after its first render
+				sc.File.Ops = ops
+				sc.Split = len(ops) + 1
+				sc.LateBody = rapid.IntRange(1, len(sc.File.Body)).Draw(t, "nlatebody")
 			}
 		}
 		return sc
